@@ -64,6 +64,8 @@ mod utils;
 pub use utils::*;
 mod serialization;
 mod rational;
+#[cfg(csl_verif)]
+pub mod verif_hooks;
 
 pub use serialization::*;
 
